@@ -527,7 +527,7 @@ static long rss_mb(pid_t pid) {
 
 static std::string flat(const std::string& s, size_t lim) {
   std::string r; r.reserve(std::min(s.size(), lim));
-  for (char c : s) { if (r.size() >= lim) break; if (c == '\n') r += " | "; else if (c == '\r' || c == '\t') r += ' '; else r += c; }
+  for (char c : s) { if (r.size() >= lim) { r += " ...[truncated]"; break; } if (c == '\n') r += " | "; else if (c == '\r' || c == '\t') r += ' '; else r += c; }
   return r;
 }
 
@@ -585,7 +585,7 @@ template <typename F> static Verdict supervise(const std::string& line, long tim
   if (killed) { v.status = killed; v.detail = progress + "rss_peak_mb=" + std::to_string(peak) + " " + flat(se, 1500); }
   else if (WIFSIGNALED(st) && (WTERMSIG(st) == SIGXCPU || WTERMSIG(st) == SIGKILL)) { v.status = "HANG"; v.detail = progress + "cpu-limit signal=" + std::to_string(WTERMSIG(st)) + " " + flat(se, 1500); }
   else if (WIFEXITED(st) && WEXITSTATUS(st) == 77) { v.status = "LEAK"; v.detail = flat(det, 300) + " || " + flat(se, 6000); }
-  else if (san) { v.status = "SAN"; v.detail = progress + "exit=" + std::to_string(WIFEXITED(st) ? WEXITSTATUS(st) : -WTERMSIG(st)) + " " + flat(se, 6000); }
+  else if (san) { v.status = "SAN"; v.detail = progress + "exit=" + std::to_string(WIFEXITED(st) ? WEXITSTATUS(st) : -WTERMSIG(st)) + " " + flat(se, 40000); }
   else if (WIFEXITED(st) && WEXITSTATUS(st) == 0) { v.status = "OK"; v.detail = det; }
   else if (WIFEXITED(st) && WEXITSTATUS(st) == 10) { v.status = "EXC"; v.detail = det; }
   else if (WIFEXITED(st) && WEXITSTATUS(st) == 78) { v.status = "FAIL"; v.detail = flat(det, 3000) + (se.empty() ? "" : " || " + flat(se, 4000)); }
